@@ -23,15 +23,24 @@ def main():
                       + "; ".join(f"{k}: {translated[k]['error']}" for k in missing), {"untranslated": missing}, False)
     K.correspondence(rep, K.OPSD, 4000 if thorough else 400, "c11", translated)
     K.monitor_c11(rep, 4000 if thorough else 600)
-    try:
-        import mon_decay_hist
-        mon_decay_hist.run(rep, thorough)
-    except ImportError:
-        rep.notes.append("history monitor for decaying tanks/arcs not built yet")
+    # decaying stores and arcs over histories: exact correspondence of DecayTank, DecayQueueTank, DecayArc, DecayArcAlt
+    # (cases of the component families restricted to the decaying classes, each with at least one close-out) and the
+    # C11 clauses evaluated on the implementation after every operation
+    import corr_comp as KC
+    import mon_comp as M
+    fams = ["dtank", "dqtank", "dqarc", "daltarc"]
+    for fam in fams:
+        KC.correspondence(rep, fam, 1200 if thorough else 120, 24 if thorough else 14, tag="c11")
+    seen = M.monitor(rep, PID, fams, 2400 if thorough else 200, 24 if thorough else 14)
+    C.apply_known(rep, PID, seen)
     rule = ("correspondence: generic_temperature_decay(_c) on random fluxes, decay tables (constants 0..3/2, exponents "
             "1/2..2, products above 1 included, pollutants without parameters) and temperatures (integer and "
             "fractional offsets from 20) vs the translated definition, exact; monitor: C11 clauses on the "
-            "implementation. non-trivial = distinct case with at least one decaying pollutant")
+            "implementation. stores and arcs: exact correspondence of random operation sequences (pushes with travel times 0-3, pulls, checks, "
+            "close-outs at varying temperature) on DecayTank, DecayQueueTank, DecayArc and DecayArcAlt; monitor after every operation: "
+            "at close-out remaining + reported = held before, nothing increases, no more than present removed, volume and pollutants "
+            "with constant 0 untouched; at a push entered = growth of what is held + delivered + growth of reported decay. "
+            "non-trivial = distinct case with at least one decaying pollutant / sequence of >= 3 operations")
     return rep.finish(rule, ["decay keys are additive pollutants (well-formedness)",
                              "pow oracle hypotheses (see trusted_base)"])
 
